@@ -176,6 +176,18 @@ def compare_all(chk, kind, refs, models, st, where, payload, opname):
         except Exception as ex:
             chk.mismatch("model:%s:%s:observe:%s:%s" % (kind.name, opname, role, type(ex).__name__), where + ": observing %s raised %r" % (h, ex), payload)
             return False
+        # variant k obtained by iterating over the model / by indexing is the singleton model of variant k's parameters
+        try:
+            items = list(m)
+            got_iter = [(float(np.ravel(it.get_parameters(unpack_singleton=True)["g"])[0]), float(np.ravel(it.get_parameters(unpack_singleton=True)["rho"])[0])) for it in items]
+            got_idx = [(float(np.ravel(m[k].get_parameters(unpack_singleton=True)["g"])[0]), float(np.ravel(m[k].get_parameters(unpack_singleton=True)["rho"])[0])) for k in range(m.num_variants)]
+        except Exception as ex:
+            chk.mismatch("model:%s:%s:iterate:%s" % (kind.name, opname, type(ex).__name__), where + ": iterating over the variants of %s raised %r" % (h, ex), payload)
+            return False
+        want = [(G[v["p"][0]], RHO[v["p"][1]]) for v in variants]
+        if got_iter != want or got_idx != want or any(it.num_variants != 1 for it in items):
+            chk.mismatch("model:%s:%s:variant-views" % (kind.name, opname), where + ": variants of %s by iteration have (g, rho) = %s, by index %s, spec %s" % (h, got_iter, got_idx, want), payload)
+            return False
         for i, v in enumerate(variants):
             if kind.name == "sim":
                 if not isinstance(v["st"], tlaval.MV) and not close(sobs[i], refs.get(v["st"])["steady"]):
@@ -217,7 +229,12 @@ def check_history(chk, kind, refs, states, tmpdir):
             elif op == "alter":
                 models[last[1]].alter_num_variants(last[2])
             elif op == "dup":
-                models[last[2]] = dup(models[last[1]], last[3], tmpdir, i)
+                try:
+                    models[last[2]] = dup(models[last[1]], last[3], tmpdir, i)
+                except Exception as ex:
+                    # record it, then carry on with dill so that the rest of the history is still checked
+                    chk.mismatch("model:%s:dup-%s:raised:%s" % (kind.name, last[3], type(ex).__name__), where + ": raised %r" % (ex,), payload)
+                    models[last[2]] = dup(models[last[1]], "dill", tmpdir, i)
             else:
                 raise MachineryError("unknown op %r" % (last,))
         except MachineryError:
